@@ -106,16 +106,27 @@ static inline void rt_creation_order(int n, int* order) {
 
 
 // -Dpin=1: fiber number i is created directly on the run queue of kernel thread i % N instead of
-// the creating thread's (-Dpin=2: the placement of every fiber is an enumerated input, N^n cases).
+// the creating thread's (-Dpin=2: the placement of every fiber is an enumerated input, N^n cases;
+// -Dpin=3 -Dplace=<digits>: explicit placement).
 // The other kernel threads have not run yet when the harness creates its fibers, so the push is
 // race-free, and "a ready fiber that has never run sits in the queue of thread k" is what a
 // fiber_create() executed by any fiber on thread k leaves behind. Every thread serves its own queue
 // before it steals, so with one fiber per kernel thread the pre-emption budget is spent on the
 // object under test instead of on getting the fibers onto different threads.
+// The placement must be over before any other kernel thread runs: rt_pin_begin() goes BEFORE
+// fmc_begin(), rt_pin_end() after the last rt_create(); in between the main thread is not switched out.
+static inline void rt_pin_begin(void) { if (fmc_param("pin", 0)) fmc_atomic(1); }
+static inline void rt_pin_end(void) { fmc_atomic(0); }
 static inline fiber_t* rt_create(int i, size_t stk, fiber_run_function_t fn, void* arg) {
   int pin = fmc_param("pin", 0), n = fmc_param("N", 2);
   if (!pin) return fiber_create(stk, fn, arg);
+  if (!fmc_in_atomic()) { fmc_log("harness error: pinned creation outside rt_pin_begin/rt_pin_end"); abort(); }
   int t = pin == 2 ? fmc_input(n) : i % n;
+  if (pin == 3) {  // -Dplace=<decimal digits>: digit number i (least significant first) is the kernel thread of fiber i
+    int pl = fmc_param("place", 0);
+    for (int k = 0; k < i; k++) pl /= 10;
+    t = pl % 10 % n;
+  }
   fiber_t* f = fiber_create_no_sched(stk, fn, arg);
   if (!f) fmc_fail("rt_create: fiber_create_no_sched failed");
   fiber_scheduler_schedule(fiber_scheduler_for_thread(t), f);
